@@ -65,6 +65,10 @@ func (g *gen) payload() string {
 	if g.chance(g.bigRate) {
 		return strings.Repeat(g.pick(g.alphabet)+"0123456789abcdef", 4200+g.r.Intn(300)) // > 64 KiB
 	}
+	if g.chance(0.04) {
+		// nothing at all: an unsafe write of nothing still opens an envelope
+		return ""
+	}
 	n := 1 + g.r.Intn(3)
 	var sb strings.Builder
 	for i := 0; i < n; i++ {
